@@ -3,6 +3,15 @@ import PsutilModel.Model.C11
 import PsutilModel.Generated.C11
 namespace Psutil.C11
 
+/-- decode_address: `except ValueError:` → `_Ipv6UnsupportedError` when `supports_ipv6()` is false, else re-raise -/
+def decodeV6HandlerShape : List String :=
+  ["except ValueError", "if not supports_ipv6(): raise _Ipv6UnsupportedError from None", "raise"]
+
+/-- process_inet: both `decode_address` calls inside one `try`, `except _Ipv6UnsupportedError: continue` -/
+def inetV6TryShape : List String :=
+  ["laddr = NetConnections.decode_address(laddr, family)", "raddr = NetConnections.decode_address(raddr, family)",
+   "except _Ipv6UnsupportedError", "continue"]
+
 /-- configuration of the model as extracted from the current source -/
 def cfg : Cfg :=
   { littleEndian := Gen.C11.littleEndian
@@ -16,6 +25,11 @@ def cfg : Cfg :=
     connKinds := Gen.C11.connTmap.map (·.1)
     inodesExtend := Gen.C11.inodesExtend
     unixPathRest := Gen.C11.unixPathRest
+    linkSkipClasses := Gen.C11.linkSkipClasses
+    linkSkipErrnos := Gen.C11.linkSkipErrnos
+    allSkipClasses := Gen.C11.allSkipClasses
+    v6RaiseUnsupported := Gen.C11.decodeV6Handler == decodeV6HandlerShape
+    v6SkipLine := Gen.C11.inetV6Try == inetV6TryShape
     inetN := Gen.C11.inetIdx.getD 0 0
     iLaddr := Gen.C11.inetIdx.getD 1 0
     iRaddr := Gen.C11.inetIdx.getD 2 0
